@@ -20,6 +20,7 @@ pub const GRAMMAR_TOKENS: &[&str] = &[
     "<script>a<div>b</script>",
     "<textarea><div></textarea>",
     "<di",
+    "<title>t</title>",
 ];
 
 /// all sequences of <= max tokens
@@ -97,6 +98,10 @@ pub fn filter_lists() -> Vec<(&'static str, Vec<FilterSpec>)> {
             "prepend_text+append[html,body]",
             vec![FilterSpec::text("prepend_text", S2), FilterSpec::html("append_child", &["html", "body"], None, S1)],
         ),
+        // targets that are raw-text elements (their end tag is found by the raw-text scanner)
+        ("replace[title]", vec![FilterSpec::html("replace", &["title"], None, S1)]),
+        ("append[textarea]sel(p)", vec![FilterSpec::html("append_child", &["textarea"], Some("p"), S1)]),
+        ("replace[html,head,title]", vec![FilterSpec::html("replace", &["html", "head", "title"], None, S1)]),
     ]
 }
 
